@@ -40,6 +40,8 @@ type vfC13Peer struct {
 	sm          bool
 	firstDone   bool
 	conns       []*vfPeerConn
+	abandoned   int32 // attempts the healthy peer would have accepted, which the client gave up before a session existed
+	stopping    int32 // the harness has called Stop: attempts cut short from now on are not the client's doing
 	disturbed   int32 // application stanzas that arrived in the middle of a negotiation (skipped by the peer)
 }
 
@@ -88,6 +90,15 @@ func (p *vfC13Peer) handle(pc *vfPeerConn) {
 	// an attempt counts, and consumes its planned behaviour, once the client has opened the stream
 	atomic.AddInt32(&p.attempts, 1)
 	b := p.next()
+	sessionUp, derailed := false, false
+	defer func() {
+		// "as soon as the server accepts connections again": an attempt this peer was ready to accept must end in a
+		// session. One that the client walks away from (and that the application's own traffic did not derail) is
+		// a wasted opportunity - a client that retries for ever without ever using one never reconnects.
+		if b == "ok" && !sessionUp && !derailed && atomic.LoadInt32(&p.stopping) == 0 {
+			atomic.AddInt32(&p.abandoned, 1)
+		}
+	}()
 	switch b {
 	case "refuse":
 		pc.Close()
@@ -136,6 +147,7 @@ func (p *vfC13Peer) handle(pc *vfPeerConn) {
 			// consumes the planned behaviour.
 			atomic.AddInt32(&p.disturbed, 1)
 			atomic.AddInt32(&p.attempts, -1)
+			derailed = true
 			if b != "ok" {
 				p.mu.Lock()
 				p.plan = append([]string{b}, p.plan...)
@@ -186,6 +198,7 @@ func (p *vfC13Peer) handle(pc *vfPeerConn) {
 	p.firstDone = true
 	p.sessions = append(p.sessions, s)
 	p.mu.Unlock()
+	sessionUp = true
 	p.established <- s
 	// reader: log what the client sends; answer a stream close
 	go func() {
@@ -319,6 +332,7 @@ func vfC13Run(run *vfkit.Run, cs *vfC13Case) {
 			return true
 		}
 		stopped = true
+		atomic.StoreInt32(&vp.stopping, 1)
 		go sm.Stop()
 		select {
 		case <-runDone:
@@ -339,6 +353,9 @@ func vfC13Run(run *vfkit.Run, cs *vfC13Case) {
 			case <-deadline:
 				return nil
 			case <-time.After(100 * time.Millisecond):
+				if atomic.LoadInt32(&vp.abandoned) >= 3 {
+					return nil // three opportunities wasted: decided by count, not by the clock
+				}
 				if !vfRetryLoopAlive() && vfClientRecvIdle(c) {
 					dead++
 					if dead >= 3 {
@@ -539,7 +556,10 @@ func vfC13Run(run *vfkit.Run, cs *vfC13Case) {
 		if next == nil {
 			// decided logically: is anything still trying?
 			alive := vfRetryLoopAlive()
-			if alive {
+			if ab := atomic.LoadInt32(&vp.abandoned); ab > 0 {
+				run.Violation("C13/accepting-server-not-used:"+tag, fmt.Sprintf("fault #%d %q: since the loss the peer was ready to accept %d connection attempts (stream opened, nothing planned against them, no application stanza in the way) and the client gave each of them up before a session existed (retry loop alive: %v; error callbacks: %v)",
+					fi, f, ab, alive, obs.Errors())+vp.diag(c, sm), cs)
+			} else if alive {
 				run.Inconclusive("reconnect-watchdog:" + tag)
 			} else {
 				run.Violation("C13/no-session-after-loss:"+tag, fmt.Sprintf("fault #%d %q: no new session was established and no retry loop is running any more (attempts seen by the peer since the loss: %d; error callbacks: %v)",
@@ -573,6 +593,11 @@ func vfC13Run(run *vfkit.Run, cs *vfC13Case) {
 	}
 	if d := atomic.LoadInt32(&vp.disturbed); d > 0 {
 		run.Count("application_stanzas_skipped_inside_negotiations", int64(d))
+	}
+	if ab := atomic.LoadInt32(&vp.abandoned); ab > 0 {
+		run.Violation("C13/accepting-server-not-used:"+shape, fmt.Sprintf("%d connection attempts that the peer was ready to accept were given up by the client before a session existed", ab)+vp.diag(c, sm), cs)
+		stop()
+		return
 	}
 	// exactly one session per loss: decided when no retry loop exists any more
 	if !vfWaitUntil(20*time.Second, func() bool { return !vfRetryLoopAlive() }) {
